@@ -218,7 +218,7 @@ def run(ctx):
         "distinct_nontrivial": res["distinct_observation_sequences"],
         "rejected": nrej, "rejected_by_kind": groups, "differ_by_reader": res["differ_by_reader"],
         "binding_selftest_corruptions_rejected": nself,
-        "exhaustive": "all strings of <= %d symbols" % res["exhaustive_len"],
+        "exhaustive": True, "exhaustive_scope": "all strings of <= %d symbols" % res["exhaustive_len"],
         "design_check": "MCStyling: arbitrary token-stream generator (tokens of <= 2 octets, any subset of 7 style bits, right or wrong data, end with/without panic) over all 40 inputs of <= 3 symbols of {*, a, newline}, streams of <= %d observations; 5 named good and 11 named bad streams" % (5 if quick else 6),
         "rule": "inputs = every string of <= %d symbols over {* _ ~ ` > space newline a no-break-space 0xC2} + %d seeded strings of %d..%d symbols + 16 fence/quote/span templates x 10 x 10 fillers + 28 lines of 4095..70000 octets (decoder only); each through NewDecoder and through Scan+bufio.Scanner; readers: whole (reference), every 2-way split, 1 octet per Read, iotest.OneByteReader, iotest.DataErrReader, DataErrReader(OneByteReader) (long lines: chunks of 1000/4096, HalfReader, DataErrReader). TLC validated: every reference run, every DISTINCT run that differs from its reference (carrying the reference; rejected under C17_ChunkIndependent), and a 0.2%% seeded sample of the runs the driver found equal to their reference (carrying the reference; accepted). Equality of the remaining runs with their reference was established by the driver by comparing an injective encoding of (data, mask, quote, info, end) sequences. distinct_nontrivial = distinct observation sequences" % (
             res["exhaustive_len"], res["sampled_n"], res["exhaustive_len"] + 1, res["sampled_len"]),
